@@ -92,7 +92,16 @@ impl<'a, F: Write + Seek> Chain<'a, F> {
                 self.allocator
                     .free_chain_after(self.sector_ids[new_num_sectors - 1])?;
             }
-            // TODO: init remainder of final sector
+            // Zero the remainder of the final sector, so that growing the
+            // chain again later exposes only zeros.
+            let remainder = new_num_sectors as u64 * sector_len - new_len;
+            if remainder > 0 && matches!(self.init, SectorInit::Zero) {
+                let mut sector = self.allocator.seek_within_sector(
+                    self.sector_ids[new_num_sectors - 1],
+                    sector_len - remainder,
+                )?;
+                sector.write_all(&vec![0u8; remainder as usize])?;
+            }
         } else {
             for _ in self.sector_ids.len()..new_num_sectors {
                 let new_sector_id = if let Some(&last_sector_id) =
